@@ -124,6 +124,56 @@ def _gensym():
     return f"_ptera__{next(_IDX)}"
 
 
+class _Suspension:
+    """Yield a single value while the function's handlers are suspended.
+
+    The transformed code replaces ``yield x`` by ``yield from
+    _Suspension(proc, x)``. This is equivalent to the plain ``yield``, except
+    that ``proc.suspend()`` is called before the generator is suspended and
+    ``proc.resume()`` when it is resumed (by next, send, throw or close), so
+    that the caller of the generator is not treated as running inside it.
+    """
+
+    __slots__ = ("proc", "value", "yielded")
+
+    def __init__(self, proc, value):
+        self.proc = proc
+        self.value = value
+        self.yielded = False
+
+    def _switch(self, method):
+        fn = getattr(self.proc, method, None)
+        if fn is not None:
+            fn()
+
+    def __iter__(self):
+        return self
+
+    def __next__(self):
+        if not self.yielded:
+            self.yielded = True
+            self._switch("suspend")
+            return self.value
+        return self.send(None)
+
+    def send(self, value):
+        self._switch("resume")
+        raise StopIteration(value)
+
+    def throw(self, typ, val=None, tb=None):
+        # Called when an exception is thrown into the generator: resume
+        # the handlers and raise the exception at the yield.
+        self._switch("resume")
+        if val is None:
+            val = typ() if isinstance(typ, type) else typ
+        raise val.with_traceback(tb) if tb is not None else val
+
+    def close(self):
+        # Called when the generator is closed or garbage collected, before
+        # GeneratorExit is raised at the yield.
+        self._switch("resume")
+
+
 class ExternalVariableCollector(NodeVisitor):
     """Collect variables referred to but not defined in the given AST.
 
@@ -550,14 +600,20 @@ class PteraTransformer(NodeTransformer):
         )
 
         wrapped_body.append(
+            ast.Assign(
+                targets=[self._set("proc")],
+                value=ast.Call(
+                    func=self._get("proceed"),
+                    args=[self._get("self")],
+                    keywords=[],
+                ),
+            )
+        )
+        wrapped_body.append(
             ast.With(
                 items=[
                     ast.withitem(
-                        context_expr=ast.Call(
-                            func=self._get("proceed"),
-                            args=[self._get("self")],
-                            keywords=[],
-                        ),
+                        context_expr=self._get("proc"),
                         optional_vars=self._set("frame"),
                     ),
                 ],
@@ -773,7 +829,13 @@ class PteraTransformer(NodeTransformer):
             "#receive",
             None,
             self._get("enter_tag"),
-            ast.Yield(value=new_value),
+            ast.YieldFrom(
+                value=ast.Call(
+                    func=self._get("Suspension"),
+                    args=[self._get("proc"), new_value],
+                    keywords=[],
+                )
+            ),
             True,
         )
         return ast.copy_location(new_yield, node)
@@ -993,6 +1055,8 @@ def transform(fn, proceed, to_instrument=True, set_conformer=True):
         "get_tags": ("__ptera_get_tags", get_tags),
         "self": (fnsym, None),
         "frame": ("__ptera_frame", None),
+        "proc": ("__ptera_proc", None),
+        "Suspension": ("__ptera_Suspension", _Suspension),
         "enter_tag": ("__ptera_enter_tag", enter_tag),
         "exit_tag": ("__ptera_exit_tag", exit_tag),
     }
